@@ -10,6 +10,11 @@ CLAIMED = {
                      "(Shape, TransformKey) are checked against the parsers' contracts, not their bodies.",
                 note="Trusted: z3/cvc5, the VC generator, string case mapping as an uninterpreted idempotent function with ground instances at literals; "
                      "set_task is held to the round trip only.", ref="5/C20"),
+    "C14": dict(text="LabelConverter.__init__/convert_label/convert_name and set_target_lists are verified for every label configuration with a "
+                     "symbolic name: total, function of lower(name), documented rows, canonical names, unknown fallback, merged == merge(unmerged), "
+                     "target lists use the same mapping. About 1400 obligations, tables unrolled exactly from the AST.",
+                note="Trusted: z3/cvc5, the VC generator, str.lower uninterpreted+idempotent with ground instances at literals; the documented table is "
+                     "transcribed by hand from docs/en/perception/label.md; documentation rows naming non-existent members decide nothing.", ref="5/C14"),
 }
 NA_REASON = "check not built yet in this session (planned in DESIGN.md section 5); not claimed"
 ALL = [f"C{n:02d}" for n in range(1, 21)]
